@@ -58,7 +58,7 @@ type balState struct {
 }
 
 func newBalWorld(n int, h *ev.History) *balWorld {
-	c := chainkit.NewChain(theT, n, chainkit.Options{})
+	c := chainkit.NewChain(theT, n, chainkit.Options{Validators: takeValidators()})
 	fs := chainkit.NewFS(c, chainkit.FSOptions{Contracts: []string{"netmap", "balance"}})
 	w := &balWorld{c: c, fs: fs, bal: fs.H["balance"], netmap: fs.H["netmap"], h: h, names: map[util.Uint160]string{}}
 	w.actor = c.Deploy(chainkit.Probe("actor", ""), nil)
@@ -400,6 +400,9 @@ func (w *balWorld) signerPool() []neotest.Signer {
 	p := []neotest.Signer{w.users[0], w.users[1], w.users[2], w.c.Alphabet}
 	if w.c.Committee.ScriptHash() != w.c.Alphabet.ScriptHash() {
 		p = append(p, w.c.Committee, w.c.Member(0))
+	}
+	if vh := w.c.Validators.ScriptHash(); vh != w.c.Alphabet.ScriptHash() && vh != w.c.Committee.ScriptHash() {
+		p = append(p, w.c.Validators) // consensus nodes of a chain with fewer validators than committee members: not the Alphabet
 	}
 	return p
 }
